@@ -35,10 +35,19 @@ pub struct Sem {
     /// the segment after leading `super`s is looked up like a first segment
     /// from the reached module's scope (its imports, then the root scope)
     pub super_walks: bool,
+    /// settle what the documentation leaves open the way the implementation
+    /// does (parameters and pattern variables live in the scope of the body
+    /// block and win over its imports; imports are processed at block entry,
+    /// before the block's `let`s; duplicate or cyclic imports are errors).
+    /// Only set in defect models.
+    pub impl_choices: bool,
 }
 
 impl Sem {
-    pub const SPEC: Sem = Sem { order_dependent: false, super_walks: false };
+    pub const SPEC: Sem = Sem { order_dependent: false, super_walks: false, impl_choices: false };
+    pub fn defect(order_dependent: bool, super_walks: bool) -> Sem {
+        Sem { order_dependent, super_walks, impl_choices: true }
+    }
 }
 
 #[derive(Clone, Copy, PartialEq, Eq, Debug)]
@@ -212,7 +221,7 @@ impl<'a> Eval<'a> {
     fn resolve_import(&mut self, i: usize, stack: &mut Vec<usize>) -> Res {
         if stack.contains(&i) {
             // genuinely cyclic imports: not described anywhere
-            return Res::Unspec;
+            return if self.sem.impl_choices { Res::Err } else { Res::Unspec };
         }
         stack.push(i);
         let imp = self.imps[i].clone();
@@ -240,7 +249,18 @@ impl<'a> Eval<'a> {
                 }
                 Scope::Fn | Scope::Inner | Scope::Sibling => {
                     if for_import.is_some() && s == s0 {
-                        if self.locals_anywhere(s).contains(&name) {
+                        if self.sem.impl_choices {
+                            let pv = match s {
+                                Scope::Fn => self.prog.param.filter(|q| *q == name).map(|_| TAG_PARAM),
+                                Scope::Inner if self.prog.nest == Nest::Match => {
+                                    self.prog.pattern.filter(|q| *q == name).map(|_| TAG_PATTERN)
+                                }
+                                _ => None,
+                            };
+                            if let Some(t) = pv {
+                                return Res::Local(t);
+                            }
+                        } else if self.locals_anywhere(s).contains(&name) {
                             return Res::Unspec;
                         }
                     } else if let Some(t) = self.local_before(s, name) {
@@ -268,7 +288,7 @@ impl<'a> Eval<'a> {
                     }
                     if stack.contains(&j) {
                         // needs an import that is being resolved: cyclic
-                        return Res::Unspec;
+                        return if self.sem.impl_choices { Res::Err } else { Res::Unspec };
                     }
                     if self.binding_name(j, stack) == Some(name) {
                         cands.push(j);
@@ -276,7 +296,7 @@ impl<'a> Eval<'a> {
                 }
                 if cands.len() > 1 {
                     // two imports of one name in one scope: not described
-                    return Res::Unspec;
+                    return if self.sem.impl_choices { Res::Err } else { Res::Unspec };
                 }
                 if let Some(&j) = cands.first() {
                     return self.resolve_import(j, stack);
@@ -440,7 +460,7 @@ impl<'a> Eval<'a> {
                         if let Some(n) = self.binding_name(j, &mut stack) {
                             let key = (self.imps[j].scope, n);
                             if names.contains(&key) {
-                                any_unspec = true;
+                                if self.sem.impl_choices { any_err = true } else { any_unspec = true }
                             }
                             names.push(key);
                         }
@@ -462,7 +482,7 @@ impl<'a> Eval<'a> {
         // open question: parameter (or pattern variable) vs. an import placed
         // directly in the block that shares their scope
         let first = p.use_path[0];
-        if first != "pkg" && first != "super" {
+        if first != "pkg" && first != "super" && !self.sem.impl_choices {
             let mut s = use_scope;
             while matches!(s, Scope::Fn | Scope::Inner) {
                 let by_let = match s {
